@@ -136,10 +136,18 @@ def forwarding_matrix():
     for hid, hparam, hlocal, harg, read in HOLD:
         for ptype, write in TAKE:
             for ext in ("", "extern "):
-                for via in ("direct", "twice"):
+                for via in ("direct", "twice", "cast", "cast-in-parentheses", "cast-then-forward"):
                     callee = "%sfn callee(p: %s)\n{\n\t%s\n}\n" % (ext, ptype, write)
                     middle = ""
                     call = "callee(b);"
+                    # `cast` takes the type of the parameter: a view must not be reinterpreted as something writable
+                    if via == "cast":
+                        call = "callee(cast b);"
+                    if via == "cast-in-parentheses":
+                        call = "callee((cast b));"
+                    if via == "cast-then-forward":
+                        middle = "fn middle(q: %s)\n{\n\tcallee(q);\n}\n" % ptype
+                        call = "middle(cast b);"
                     if via == "twice":
                         # one more hop that only forwards, again without `&`
                         middle = "fn middle(q: %s)\n{\n\tcallee(q);\n}\n" % ptype
